@@ -690,6 +690,39 @@ func glen[M ~map[int]int](m M, n int) int {
 	*p = a
 	*q = b
 	return c*10 + d, x`),
+		mk("twolatch", `	i, t := 0, 0
+	for i < len(s)+3 {
+		t += i
+		if i%2 == b%2 {
+			i += 3
+			continue
+		}
+		i++
+	}
+	return t, x`),
+		mk("twolatch2", `	i, t := 0, 0
+	for i < len(s)+3 {
+		t += i
+		if i%2 != b%2 {
+			i++
+			continue
+		}
+		i += 3
+	}
+	return t, x`),
+		mk("sharedupdate", `	t, i := 0, 0
+	for i < b+4 {
+		c := i + 1
+		d := c * 2
+		t += d
+		if d > a {
+			i = c
+			continue
+		}
+		t++
+		i = c
+	}
+	return t, x`),
 		mk("dupexpr", `	t := a * b
 	c := (t + 1) * (t + 1)
 	d := (t - 2) * (t - 2)
